@@ -172,6 +172,9 @@ def conclude(prop, tier, seed, pl, results, extra, args, t0):
                 replayed = runner.replay_candidates(record, args.repo)
             except Exception as ex:
                 record["replay_error"] = repr(ex)
+        if r is None and ob.get("reproduced"):
+            # ground obligation decided by evaluating the real code: the evaluation is the replay
+            replayed = dict(reproduced=True, how=ob.get("replay_how"), output=ob.get("text"))
         record["replayed"] = replayed
         json.dump(record, open(rp, "w"), indent=1, default=str)
         reproduced = bool(replayed and replayed.get("reproduced"))
